@@ -810,6 +810,209 @@ fn stream_x_case_tagged(w: &mut CasesWriter, r: &mut Rng, script: &str, nsched: 
 }
 
 // ---------------------------------------------------------------------------
+// Stream N: nested process trees against the sequential reference
+
+#[derive(Clone, Debug)]
+enum NCmd {
+    Work(u32, i32),
+    Sub(Vec<NCmd>),
+    Pipe(Vec<Vec<NCmd>>, bool),
+    AsyncWait(Vec<NCmd>),
+    Subst(Vec<NCmd>),
+    Exit(i32),
+}
+
+fn nlist_coq(l: &[NCmd]) -> String {
+    let v: Vec<String> = l.iter().map(ncmd_coq).collect();
+    coq::list(&v)
+}
+
+fn ncmd_coq(c: &NCmd) -> String {
+    match c {
+        NCmd::Work(w, st) => format!("(NWork {} {})", coq::nat(*w as usize), coq::n(*st as u64)),
+        NCmd::Sub(b) => format!("(NSub {})", nlist_coq(b)),
+        NCmd::Pipe(ms, pf) => {
+            let v: Vec<String> = ms.iter().map(|m| nlist_coq(m)).collect();
+            format!("(NPipe {} {})", coq::list(&v), coq::b(*pf))
+        }
+        NCmd::AsyncWait(b) => format!("(NAsyncWait {})", nlist_coq(b)),
+        NCmd::Subst(b) => format!("(NSubst {})", nlist_coq(b)),
+        NCmd::Exit(st) => format!("(NExit {})", coq::n(*st as u64)),
+    }
+}
+
+fn nlist_sh(l: &[NCmd]) -> String {
+    let v: Vec<String> = l.iter().map(ncmd_sh).collect();
+    v.join("; ")
+}
+
+fn ncmd_sh(c: &NCmd) -> String {
+    match c {
+        NCmd::Work(w, st) => format!("work {w} {st}"),
+        NCmd::Sub(b) => format!("( {} )", nlist_sh(b)),
+        NCmd::Pipe(ms, _) => {
+            let v: Vec<String> = ms.iter().map(|m| format!("{{ {}; }}", nlist_sh(m))).collect();
+            v.join(" | ")
+        }
+        NCmd::AsyncWait(b) => format!("{{ {}; }} & wait $!", nlist_sh(b)),
+        NCmd::Subst(b) => format!("v=$( {} )", nlist_sh(b)),
+        NCmd::Exit(st) => format!("exit {st}"),
+    }
+}
+
+fn count_procs(c: &NCmd) -> usize {
+    match c {
+        NCmd::Work(..) | NCmd::Exit(_) => 0,
+        NCmd::Sub(b) | NCmd::AsyncWait(b) | NCmd::Subst(b) => 1 + b.iter().map(count_procs).sum::<usize>(),
+        NCmd::Pipe(ms, _) => ms.iter().map(|m| 1 + m.iter().map(count_procs).sum::<usize>()).sum(),
+    }
+}
+
+fn gen_nbody(r: &mut Rng, depth: usize) -> Vec<NCmd> {
+    let n = 1 + r.below(3);
+    let mut v: Vec<NCmd> = (0..n).map(|_| gen_ncmd(r, depth)).collect();
+    if r.chance(1, 3) {
+        // leave the enclosing subshell early
+        let at = r.below(v.len() + 1);
+        v.insert(at, NCmd::Exit(*r.pick(&[0, 2, 9, 100])));
+    }
+    v
+}
+
+fn gen_ncmd(r: &mut Rng, depth: usize) -> NCmd {
+    let sts = [0, 0, 1, 3, 7, 42];
+    if depth == 0 {
+        return NCmd::Work(r.below(3) as u32, *r.pick(&sts));
+    }
+    match r.below(10) {
+        0..=1 => NCmd::Work(r.below(3) as u32, *r.pick(&sts)),
+        2..=3 => NCmd::Sub(gen_nbody(r, depth - 1)),
+        4..=6 => {
+            let k = 2 + r.below(2);
+            NCmd::Pipe((0..k).map(|_| gen_nbody(r, depth - 1)).collect(), false)
+        }
+        7..=8 => NCmd::AsyncWait(gen_nbody(r, depth - 1)),
+        _ => NCmd::Subst(gen_nbody(r, depth - 1)),
+    }
+}
+
+fn stream_n_case(w: &mut CasesWriter, cmds: &[NCmd], pk: usize, seed: u64) {
+    fn any_pf(c: &NCmd) -> bool {
+        match c {
+            NCmd::Pipe(ms, f) => *f || ms.iter().any(|m| m.iter().any(any_pf)),
+            NCmd::Sub(b) | NCmd::AsyncWait(b) | NCmd::Subst(b) => b.iter().any(any_pf),
+            _ => false,
+        }
+    }
+    let mut script = String::new();
+    if cmds.iter().any(any_pf) {
+        script.push_str("set -o pipefail\n");
+    }
+    for c in cmds {
+        script.push_str(&ncmd_sh(c));
+        script.push_str("\nargs \"$?\"\n");
+    }
+    let (pol, name) = policy_of(pk, seed);
+    let run = run_script(&script, pol);
+    let o = &run.o;
+    let obs: Vec<String> =
+        o.trace.iter().filter(|t| t.in_main && t.kind == "args").map(|t| coq::z(t.status as i128)).collect();
+    let left = run.info.children.iter().filter(|(_, a, u)| *a || *u).count();
+    let term = format!(
+        "(CNest {} {} {} {} {} {})",
+        nlist_coq(cmds),
+        coq::list(&obs),
+        coq::z(o.status as i128),
+        coq::b(o.deadlock || o.timeout),
+        coq::b(o.panicked.is_some()),
+        coq::nat(left)
+    );
+    let json = format!(
+        "{{\"stream\":\"N\",\"script\":{},\"policy\":{},\"observed\":{},\"deadlock\":{},\"timeout\":{},\"left\":{},\"stderr\":{}}}",
+        json_str(&script),
+        json_str(&name),
+        json_str(&obs.join(" ").replace("%Z", "")),
+        o.deadlock,
+        o.timeout,
+        left,
+        json_str(&o.stderr.chars().take(200).collect::<String>())
+    );
+    let procs: usize = cmds.iter().map(count_procs).sum();
+    w.count(&format!("N.processes:{}", if procs >= 12 { "12+".to_string() } else { format!("{}", procs / 3 * 3) }));
+    let key = if procs >= 3 { Some(format!("N:{script}:{name}")) } else { None };
+    w.push(&term, &json, &[], key);
+}
+
+// ---------------------------------------------------------------------------
+// Stream T: `wait` interrupted by a trapped signal
+
+const SIGUSR1_NO: u64 = 124; // yash_env::system::virtual::SIGUSR1
+
+fn trap_script(by_pid: bool, k: usize, st: i32, at: u32, gap: u32) -> String {
+    let long = at + gap * k as u32 + 2;
+    let mut s = String::from("trap 'args trapped' USR1\n");
+    s.push_str(&format!("work {long} {st} &\np=$!\n"));
+    if k > 0 {
+        let mut h = format!("{{ work {at}; kill -USR1 2");
+        for _ in 1..k {
+            h.push_str(&format!("; work {gap}; kill -USR1 2"));
+        }
+        h.push_str("; } &\nh=$!\n");
+        s.push_str(&h);
+    }
+    let w = if by_pid { "wait $p" } else { "wait" };
+    for _ in 0..k + 2 {
+        s.push_str(&format!("{w}\nargs \"$?\" probe\n"));
+    }
+    s.push_str("wait\nargs \"$?\" probe\n");
+    s
+}
+
+fn stream_t_case(w: &mut CasesWriter, by_pid: bool, k: usize, st: i32, at: u32, gap: u32, pk: usize, seed: u64) {
+    let script = trap_script(by_pid, k, st, at, gap);
+    let (pol, name) = policy_of(pk, seed);
+    let run = run_script(&script, pol);
+    let o = &run.o;
+    let recs: Vec<String> = o
+        .trace
+        .iter()
+        .filter(|t| t.in_main && t.kind == "args")
+        .map(|t| {
+            let kind = if t.args.first().map(|a| a == "trapped").unwrap_or(false) { 0 } else { 1 };
+            format!("({}, {})", coq::n(kind), coq::z(t.status as i128))
+        })
+        .collect();
+    let left = run.info.children.iter().filter(|(_, a, u)| *a || *u).count();
+    let term = format!(
+        "(CTrap {} {} {} {} {} {} {} {} {})",
+        coq::b(by_pid),
+        coq::nat(k),
+        coq::n(st as u64),
+        coq::n(SIGUSR1_NO),
+        coq::list(&recs),
+        coq::z(o.status as i128),
+        coq::b(o.deadlock || o.timeout),
+        coq::b(o.panicked.is_some()),
+        coq::nat(left)
+    );
+    let json = format!(
+        "{{\"stream\":\"T\",\"script\":{},\"policy\":{},\"trace\":{},\"status\":{},\"deadlock\":{},\"timeout\":{},\"left\":{},\"stderr\":{}}}",
+        json_str(&script),
+        json_str(&name),
+        json_str(&recs.join(" ").replace("%N", "").replace("%Z", "")),
+        o.status,
+        o.deadlock,
+        o.timeout,
+        left,
+        json_str(&o.stderr.chars().take(200).collect::<String>())
+    );
+    w.count(&format!("T.signals:{k}"));
+    w.count(if by_pid { "T.form:wait PID" } else { "T.form:wait" });
+    let key = if k >= 1 { Some(format!("T:{script}:{name}")) } else { None };
+    w.push(&term, &json, &[], key);
+}
+
+// ---------------------------------------------------------------------------
 
 fn main() {
     let args = Args::parse();
@@ -1031,6 +1234,62 @@ fn main() {
             let (pol, name) = policy_of(pk, r.next_u64() % 1_000_000);
             let run = run_script(&script, pol);
             emit_s_case(&mut w, &p, &script, &name, &run);
+        }
+    }
+
+    // nested process trees against the sequential reference
+    let nn = args.scale(60, 1200);
+    for k in 0..nn {
+        let mut r = rng.fork(10_000_000 + k as u64);
+        let n = 1 + r.below(4);
+        // the pipefail option is inherited by every subshell: one setting per script
+        let pf = r.chance(1, 3);
+        fn set_pf(c: &mut NCmd, pf: bool) {
+            match c {
+                NCmd::Pipe(ms, f) => {
+                    *f = pf;
+                    for m in ms {
+                        for x in m {
+                            set_pf(x, pf);
+                        }
+                    }
+                }
+                NCmd::Sub(b) | NCmd::AsyncWait(b) | NCmd::Subst(b) => {
+                    for x in b {
+                        set_pf(x, pf);
+                    }
+                }
+                _ => {}
+            }
+        }
+        let cmds: Vec<NCmd> = (0..n)
+            .map(|_| {
+                let mut c = gen_ncmd(&mut r, 3);
+                set_pf(&mut c, pf);
+                c
+            })
+            .collect();
+        let nsched = args.scale(3, 5);
+        for j in 0..nsched {
+            let pk = if j == 0 { 0 } else if j == 1 { 1 } else { 2 + r.below(3) };
+            stream_n_case(&mut w, &cmds, pk, r.next_u64() % 1_000_000);
+        }
+    }
+
+    // `wait` interrupted by a trapped signal
+    {
+        let mut r = rng.fork(9_000_000);
+        for by_pid in [true, false] {
+            for k in 0..=3usize {
+                let reps = args.scale(3, 40);
+                for j in 0..reps {
+                    let st = *r.pick(&[0, 1, 7, 42]);
+                    let at = 1 + r.below(3) as u32;
+                    let gap = 1 + r.below(3) as u32;
+                    let pk = if j == 0 { 0 } else if j == 1 { 1 } else { 2 + r.below(3) };
+                    stream_t_case(&mut w, by_pid, k, st, at, gap, pk, r.next_u64() % 1_000_000);
+                }
+            }
         }
     }
 
